@@ -20,9 +20,11 @@ unconditionally ("collision ⇒ same molecule ∨ residue"): a collision between
 happens only between double-stranded DNA sequences, one containing `U`, with the same other strand
 which is the hashed strand of both; `hash_collision_of_residue` is the converse (that residue always
 collides), so the pair characterises the collision set exactly.  The completeness direction fails in
-the same class (`hash_same_molecule_dna_u_witness`; `hash_same_molecule_partial`).  `Z` (complemented to the zero rune, under DNA
-and RNA) is NOT excluded: complementing is injective on the accepted nucleotide letters other than
-`U`, so nothing collides with `Z`.
+the same class (`hash_same_molecule_dna_u_witness`; `hash_same_molecule_partial`).  `Z` (accepted under DNA
+and RNA; not a nucleotide code, the property defines no other strand for it) is NOT excluded from the
+separation theorems: complementing is injective on the accepted nucleotide letters other than
+`U` (a `decide`d fact about the regenerated table, so it follows the code's present answer for `Z`), so
+nothing collides with `Z`.  The completeness theorem excludes `Z` from double-stranded inputs.
 
 "Sequence" in the conclusions means the NORMALISED sequence `norm ty s`: upper-cased (C04's case
 clause) and, under type RNA, with `U` read as `T` (the first statements of `Hash`; under RNA the two
@@ -169,23 +171,24 @@ theorem SameUpToRotation.mem_iff {circ : Bool} {x y : Str} (h : SameUpToRotation
     rw [this]
   · exact IsRotation.mem_iff h
 
-theorem table_strand_closed : ∀ c ∈ nucleotideLetters, c ≠ 'U' → complementBase c ∈ nucleotideLetters → c ∈ upperCodes := by
+/-- a fact about the accepted nucleotide ALPHABET only (no complement table involved): apart from
+`U` and `Z` it consists of the 15 IUPAC codes -/
+theorem table_nucleotide_noUZ : ∀ c ∈ nucleotideLetters, c ≠ 'U' → c ≠ 'Z' → c ∈ upperCodes := by
   decide
 
-/-- if a `U`-free accepted nucleotide sequence has an other strand that is itself accepted, it is over
-the 15 IUPAC codes (this is where `Z`, whose complement is the zero rune, drops out) -/
-theorem iupac15_of_strand_accepted {x y : Str} {circ : Bool} (hx : NoU x) (hy : NoU y)
-    (h : SameUpToRotation circ x (Transform.revComp y)) : Iupac15 y := by
+/-- a `U`-free, `Z`-free accepted nucleotide sequence is over the 15 IUPAC codes — the letters whose
+other strand the property defines (`Z` is not a nucleotide code: no nomenclature gives it a partner,
+so the completeness clause says nothing about double-stranded inputs containing it, and no theorem
+here depends on what the code's complement table answers for `Z`) -/
+theorem iupac15_of_noUZ {y : Str} (hy : NoU y) (hz : 'Z' ∉ y) : Iupac15 y := by
   intro c hc
-  have hm : complementBase c ∈ Transform.revComp y := by
-    simp only [Transform.revComp, complement, List.mem_reverse, List.mem_map]
-    exact ⟨c, hc, rfl⟩
-  exact table_strand_closed c (hy.1 c hc) (fun e => hy.2 (e ▸ hc)) (hx.1 _ (h.mem_iff.2 hm))
+  exact table_nucleotide_noUZ c (hy.1 c hc) (fun e => hy.2 (e ▸ hc)) (fun e => hz (e ▸ hc))
 
 /-- conversely the same molecule has the same canonical representative (C04 at the level of
-`canonSpec`), for `U`-free accepted nucleotide sequences when double-stranded -/
+`canonSpec`), for accepted nucleotide sequences over the 15 codes (no `U`, no `Z`) when double-stranded -/
 theorem canon_eq_of_sameMolecule {x y : Str} {circ ds : Bool}
     (hx : ds = true → NoU x) (hy : ds = true → NoU y)
+    (hzx : ds = true → 'Z' ∉ x) (hzy : ds = true → 'Z' ∉ y)
     (h : SameMolecule x y circ ds) : canonSpec x circ ds = canonSpec y circ ds := by
   have rot : ∀ {u v : Str} (d : Bool), SameUpToRotation circ u v → canonSpec u circ d = canonSpec v circ d := by
     intro u v d huv
@@ -194,8 +197,8 @@ theorem canon_eq_of_sameMolecule {x y : Str} {circ ds : Bool}
     · exact canonSpec_of_isRotation huv d
   rcases h with h | ⟨rfl, h | h⟩
   · exact rot ds h
-  · rw [rot true h, canonSpec_revComp (iupac15_of_strand_accepted (hx rfl) (hy rfl) h).rc_rc]
-  · rw [← rot true h, canonSpec_revComp (iupac15_of_strand_accepted (hy rfl) (hx rfl) h.symm).rc_rc]
+  · rw [rot true h, canonSpec_revComp (iupac15_of_noUZ (hy rfl) (hzy rfl)).rc_rc]
+  · rw [← rot true h, canonSpec_revComp (iupac15_of_noUZ (hx rfl) (hzx rfl)).rc_rc]
 
 /-! ### separation -/
 
@@ -385,12 +388,25 @@ theorem hash_inj_general {blake : List UInt8 → List UInt8} (hb : Function.Inje
    statement under the hypothesis excluding double-stranded DNA inputs that contain `U` (`Z` is covered). -/
 
 /-- completeness — PARTIAL: accepted inputs of the same declared kind that denote the same molecule
-receive the same seqhash, for every digest; for double-stranded DNA the sequences must not contain `U` -/
+receive the same seqhash, for every digest; for double-stranded DNA the sequences must not contain `U`,
+and double-stranded sequences must not contain `Z` (the property does not say what the other strand
+of `Z` is; the theorem does not depend on what the code's complement table answers for it) -/
 theorem hash_same_molecule_partial (blake : List UInt8 → List UInt8) {a b : Str} {ty : String} {c d : Bool}
     (ha : Accepted ty d (norm ty a)) (hb : Accepted ty d (norm ty b))
     (hcl : d = true → ty = "DNA" → 'U' ∉ upper a ∧ 'U' ∉ upper b)
+    (hz : d = true → 'Z' ∉ upper a ∧ 'Z' ∉ upper b)
     (h : SameMolecule (norm ty a) (norm ty b) c d) :
     hashSpec blake a ty c d = hashSpec blake b ty c d := by
+  have noz : ∀ s, 'Z' ∉ upper s → 'Z' ∉ norm ty s := by
+    intro s hs
+    unfold norm
+    split
+    · simp only [uToT, List.mem_map, not_exists, not_and]
+      intro x hx
+      split
+      · decide
+      · intro e; exact hs (e ▸ hx)
+    · exact hs
   have nou : ∀ s, Accepted ty d (norm ty s) → (d = true → ty = "DNA" → 'U' ∉ upper s) → d = true → NoU (norm ty s) := by
     intro s hs hu hd
     subst hd
@@ -404,7 +420,8 @@ theorem hash_same_molecule_partial (blake : List UInt8 → List UInt8) {a b : St
       · exact absurd hty hr
       · exact absurd hd (by simp)
   rw [hashSpec_ok _ _ _ _ _ ha, hashSpec_ok _ _ _ _ _ hb,
-    canon_eq_of_sameMolecule (nou a ha fun hd ht => (hcl hd ht).1) (nou b hb fun hd ht => (hcl hd ht).2) h]
+    canon_eq_of_sameMolecule (nou a ha fun hd ht => (hcl hd ht).1) (nou b hb fun hd ht => (hcl hd ht).2)
+      (fun hd => noz a (hz hd).1) (fun hd => noz b (hz hd).2) h]
 
 /-- KNOWN FINDING C05-dna-u-strand, completeness half, kernel-checked on the model of the code: `CUC`
 and `GAG` are both accepted as linear double-stranded DNA and are the same molecule (`GAG` is the
@@ -547,9 +564,10 @@ theorem model_hash_inj_general {blake : List UInt8 → List UInt8} (hb : Functio
 theorem model_hash_same_molecule_partial (blake : List UInt8 → List UInt8) {a b : Str} {ty : String} {c d : Bool}
     (ha : Accepted ty d (norm ty a)) (hb : Accepted ty d (norm ty b))
     (hcl : d = true → ty = "DNA" → 'U' ∉ upper a ∧ 'U' ∉ upper b)
+    (hz : d = true → 'Z' ∉ upper a ∧ 'Z' ∉ upper b)
     (h : SameMolecule (norm ty a) (norm ty b) c d) :
     Seqhash.hash blake a ty c d = Seqhash.hash blake b ty c d := by
-  rw [hash_model_eq_spec]; exact hash_same_molecule_partial blake ha hb hcl h
+  rw [hash_model_eq_spec]; exact hash_same_molecule_partial blake ha hb hcl hz h
 
 theorem model_hash_collision_class {blake : List UInt8 → List UInt8} (hb : Function.Injective blake)
     {a b : Str} {ta tb : String} {ca da cb db : Bool} {h : Str}
